@@ -136,7 +136,7 @@ Emit ==
 
 Next ==
   \/ \E t \in Times : \E key \in Keys : AddReading(t, key)
-  \/ \E i \in 1..MaxReadings : RepeatReading(i)
+  \/ \E i \in 1..MaxReadings : \E w \in 1..4 : RepeatReading(i)      \* (w only weights the simulator's uniform draw over action instances)
   \/ \E out \in Times : \E ctl \in BOOLEAN : Tick(out, ctl)
   \/ \E out \in Times : TickRefused(out)
   \/ Emit
